@@ -246,16 +246,29 @@ class CallMixin:
         if name in ('all_of', 'any_of') and args[2].get('kind') in ('LambdaExpr',) or \
                 (name in ('all_of', 'any_of') and self.is_lambda_arg(args[2])):
             lam = self.lambda_fn(self.strip_to_lambda(args[2]))
-            if lam['captures']:
-                raise LoweringError('capturing lambda in all_of/any_of')
-            first = self.hoist_pure(a0t, self.ex(args[0]))
-            last = self.hoist_pure(a0t, self.ex(args[1]))
+            if self.cond_depth:
+                # inside `a || all_of(..)`: the scan is hoisted in front of the expression; it has no side effects (the lambdas
+                # lowered here only read), so evaluating it although the left operand already decided changes nothing
+                def pure_iter(x):
+                    while x.get('kind') in ('ImplicitCastExpr', 'ParenExpr', 'MaterializeTemporaryExpr', 'ExprWithCleanups', 'CXXBindTemporaryExpr', 'CXXConstructExpr') and len(x.get('inner', [])) == 1:
+                        x = x['inner'][0]
+                    if x.get('kind') == 'CXXMemberCallExpr' and len(x.get('inner', [])) == 1:
+                        me = x['inner'][0]
+                        if me.get('kind') == 'MemberExpr' and me.get('name') in ('begin', 'end', 'cbegin', 'cend'):
+                            return not self.has_side_effects(me['inner'][0])
+                    return not self.has_side_effects(x)
+                if not all(pure_iter(x) for x in args[:2]):
+                    raise LoweringError(f'std::{name} with side effects in a conditional operand')
+            first = self.hoist_pure(a0t, self.ex(args[0])) if not self.cond_depth else f'({self.ex(args[0])})'
+            last = self.hoist_pure(a0t, self.ex(args[1])) if not self.cond_depth else f'({self.ex(args[1])})'
             r = self.tmp('__any')
             it = self.tmp('__it')
             want = '1' if name == 'all_of' else '0'
+            pt = lam['ptypes'][0]
+            call = f'{lam["cname"]}({", ".join(lam["captures"] + [it if pt.is_ref() else "*" + it])})'
             self.pre.append(f'_Bool {r} = {want};')
             self.pre.append(f'for ({self.ctype(a0t)} {it} = {first}; {it} != {last}; ++{it}) '
-                            f'{{ if ({"!" if name == "all_of" else ""}{lam["cname"]}(*{it})) {{ {r} = {1 - int(want)}; break; }} }}')
+                            f'{{ if ({"!" if name == "all_of" else ""}{call}) {{ {r} = {1 - int(want)}; break; }} }}')
             self.cur['loops'] += 1
             return r
         if name in ('remove_if', 'find_if') and len(args) == 3 and self.is_lambda_arg(args[2]):
